@@ -3,7 +3,7 @@ import Monorail.Model.Lock
 open Lean
 namespace Monorail.Driver
 
-/-- {"op":"lock","n":k,"events":[["try",p]|["effect",p]|["finish",p,rc]|["kill",p]]} -/
+/-- {"op":"lock","n":k,"events":[["try",p]|["effect",p]|["finish",p,rc]|["kill",p]|["timeout",p]]} -/
 def handleLock (j : Json) : Except String Json := do
   let n ← getNat j "n"
   let evs ← (← getArr j "events").toList.mapM (fun e => do
@@ -15,6 +15,7 @@ def handleLock (j : Json) : Except String Json := do
     | "effect" => pure (LEv.effect p)
     | "finish" => do let rc ← (a[2]!).getNat?; pure (LEv.finish p rc)
     | "kill" => pure (LEv.kill p)
+    | "timeout" => pure (LEv.bindTimeout p)
     | _ => throw s!"bad lock event {k}")
   let s := lrun n evs
   let pcJ : Pc → Json
